@@ -28,7 +28,62 @@ from prompt_toolkit.selection import PasteMode, SelectionType
 
 ID = "C09"
 DRIVER = "drv_c09"
-PROPS = ["Ptk.Props.C09"]
+PROPS = ["Ptk.Props.C09", "Ptk.Props.C09Vi"]
+TECHNIQUE = "Lean 4 proof over an executable model + differential correspondence + property oracle"
+LEVEL_TEXT = ("Lean 4 theorems over an executable model of the kill ring (InMemoryClipboard), Buffer.delete / "
+              "delete_before_cursor, the Emacs kill / yank / yank-pop / region commands with event.arg and "
+              "event.is_repeat, Document.paste_clipboard_data (CHARACTERS / LINES / BLOCK x 3 paste modes x count), "
+              "Document.cut_selection and the Vi register commands (x X s D C dd yy p P \"rp, visual x/y/d with named "
+              "registers): every kill puts exactly the removed characters on the ring and the removed text put back at "
+              "the kill point is the old text, consecutive word kills accumulate in text order (forward appends, backward "
+              "prepends, for runs of any length), yank right after kill restores the text, the column-0 "
+              "unix-line-discard exception, rotate is a permutation with rotate^len = id, set_data loses nothing "
+              "below max_size, yank-pop = yank of the next ring entry at the original spot and a full cycle closes, "
+              "paste inserts the data count times unchanged; the model is tied to /repo on every run by a "
+              "differential correspondence through the real KeyProcessor (Emacs and Vi mode) and the real "
+              "Document / clipboard API, and by a property oracle on the real objects")
+LEVEL_NOTE = ("trusted: Lean kernel, axioms propext/Classical.choice/Quot.sound only; the hand-written model "
+              "(validated by the correspondence, not proved equal to the Python); CPython str / deque semantics; "
+              "regex \\s is a parameter of the theorems (table regenerated from the interpreter for the driver)")
+RULE = ("emacs: for every text over {a, space, newline, .} up to the tier's length and every cursor, from a fresh "
+        "editor with a preloaded ring: every kill command x every argument class (none, M--, negative, 0, positive, "
+        "oversized, >= 10^6) followed by yank and yank-pop, every pair of kill commands, triple word kills, kills "
+        "after a failing kill, yank with arguments + yank-pop cycles, every region (mark, point) kill/copy; then "
+        "seeded random sessions (<= 13 chords incl. cursor moves, self-insert, goto, regions, ring bound 1..60, "
+        "unicode); vi: for every text over {a, space, newline}: x X s dd yy with counts, D C, p P with counts, "
+        "every visual selection (v / V / C-v, every anchor and cursor) followed by x / d / y / \"ay / \"qd and "
+        "pastes; then seeded random sessions incl. valid and invalid register names; paste: every text, cursor, "
+        "data type, data string, paste mode and count in a small scope + random; ring: random set_data / rotate "
+        "sequences; a case is non-trivial when its text is non-empty or it has at least 3 ops")
+EXHAUSTIVE = True
+EXHAUSTIVE_SCOPE = {
+    "quick": "emacs: alphabet {a,space,\\n,.} len<=2 and {a,space,\\n} len 3, all cursors, ~90 key sequences each; "
+             "vi: alphabet {a,space,\\n} len<=3, all cursors, ~100 sequences each (visual: all anchors x cursors, "
+             "3 selection types); paste: alphabet {a,space,\\n} len<=3 x all cursors x 3 types x 6 data x 3 modes x "
+             "counts -1..2",
+    "thorough": "emacs: alphabet {a,space,\\n,.} len<=4, all cursors, ~130 key sequences each; vi: alphabet "
+                "{a,space,\\n} len<=4, all cursors, all visual selections x 5 follow-ups; paste: len<=4 x 8 data x "
+                "counts -1..3"}
+TRUSTED = ["harness/c09.py drives one real PromptSession per worker through app.key_processor (keys parsed by the real "
+           "Vt100Parser) and compares text, cursor, the whole kill ring, document_before_paste / named registers "
+           "after every op; cursor jumps ('goto', region and visual anchors) are made through Buffer.cursor_position",
+           "the clipboard is an InMemoryClipboard subclass that only counts set_data calls",
+           "Ptk/Model/C09.lean, C09Vi.lean are hand translations of the anchored code (correspondence-checked)",
+           "harness/gen_c09.py re-extracts the two word regex patterns (pinned in the model), the default max_size "
+           "and vi_register_names from the current tree"]
+ASSUMPTIONS = ["CPython str slicing / deque semantics", "regex \\s table regenerated from the running interpreter",
+               "one focused buffer, not read-only, no completion menu / search / macro recording active",
+               "the kill ring holds CHARACTERS entries in Emacs sessions (LINES / BLOCK entries come from Vi mode and "
+               "are pasted through the same Document.paste_clipboard_data, checked directly)"]
+PARTIAL_SCOPE = ["Vi operators with motions (dw, yw, \"ayw ...) are property C08; here registers are filled through "
+                 "x X s D C dd yy and visual selections (INCLUSIVE / LINEWISE / BLOCK text objects)",
+                 "cc / S, yank-nth-arg / yank-last-arg, shift-selection mode, c-delete, the system (pyperclip) "
+                 "clipboard and macro registers are not modelled",
+                 "theorems about LINES / BLOCK selections (cut_selection) are stated for the CHARACTERS case and for "
+                 "dd / yy; LINES / BLOCK cuts are covered by the correspondence and the oracle only",
+                 "observed, not part of C09: kill-word with a negative argument kills text_after_cursor[:-k] forward "
+                 "(Buffer.delete with a negative count); visual BLOCK + operator (d / y) acts on a block one column "
+                 "narrower than C-v ... x"]
 
 TY = {"c": SelectionType.CHARACTERS, "l": SelectionType.LINES, "b": SelectionType.BLOCK}
 TYR = {v: k for k, v in TY.items()}
@@ -828,26 +883,24 @@ def oracle_vi_seq(case, tr, bad0):
                     if got == "same" and must_store and br.get(chr(reg)) != stored:
                         bad(site, "register != selected text", "register")
             else:
-                # BLOCK: what was removed is what was stored (the exact columns an operator uses on a
-                # block selection are span semantics, not checked here)
-                import collections
-                if act == "y" and T2 != T:
-                    bad(site, "frame", "yank changed the text")
-                if T2.count("\n") != T.count("\n") or len(T2.split("\n")) != len(lines):
-                    bad(site, "frame", "block cut removed a newline")
-                removed = collections.Counter(T) - collections.Counter(T2)
-                if got not in (None, "same"):
-                    if got[0] != "b":
-                        bad(site, "register type", "block selection must be stored as BLOCK")
-                    segs = got[1].split("\n")
-                    if act != "y" and collections.Counter("".join(segs)) != removed:
-                        bad(site, "register != removed text", "register")
-                    if act == "y":
-                        rows = lines[r1:]
-                        if len(segs) > len(rows) or any(sg not in rows[i] for i, sg in enumerate(segs) if i < len(rows)):
-                            pass
-                elif valid_reg and got is None and sum(removed.values()) > 0:
-                    bad(site, "removed text not stored", "register")
+                # BLOCK: rows r1..r2, columns cA..cB (both included); rows shorter than cA have no cell
+                cA, cB = sorted([lo - (T.rfind("\n", 0, lo) + 1), hi - (T.rfind("\n", 0, hi) + 1)])
+                segs, rest = [], list(lines)
+                for rr in range(r1, r2 + 1):
+                    if len(lines[rr]) >= cA:
+                        segs.append(lines[rr][cA:cB + 1])
+                        rest[rr] = lines[rr][:cA] + lines[rr][cB + 1:]
+                stored = ("b", "\n".join(segs))
+                if T2 != (T if act == "y" else "\n".join(rest)):
+                    bad(site, "frame", "removed something else than the selected block")
+                must_store = stored[1] != "" or act == "x"
+                if valid_reg:
+                    if must_store and got is None:
+                        bad(site, "removed text not stored" if act != "y" else "yanked text not stored", "register")
+                    if got not in (None, "same") and got != stored:
+                        bad(site, "register != selected text", "register")
+                    if got == "same" and must_store and br.get(chr(reg)) != stored:
+                        bad(site, "register != selected text", "register")
         if len(a["ring"]) > maxsize:
             bad(site, "ring longer than max_size", "ring")
 
@@ -909,13 +962,30 @@ def sample_view(case):
 
 
 def nontrivial(case):
-    return True
+    if case["kind"] in ("emacs", "vi"):
+        return len(case["text"]) > 0 or len(seqs_of(case)[0]) >= 3
+    if case["kind"] == "paste":
+        return len(case["text"]) > 0
+    return len(case["ops"]) >= 2
 
 
 def distribution(cases):
-    d = {"kind": {}}
+    d = {"kind": {}, "text_len": {}, "ops": {}, "args": {}}
     for c in cases:
         d["kind"][c["kind"]] = d["kind"].get(c["kind"], 0) + 1
+        if "text" in c:
+            n = len(c["text"])
+            key = str(n) if n < 6 else "6+"
+            d["text_len"][key] = d["text_len"].get(key, 0) + 1
+        if c["kind"] in ("emacs", "vi"):
+            for seq in seqs_of(c):
+                for op in seq:
+                    k = c["kind"] + ":" + str(op[1])
+                    d["ops"][k] = d["ops"].get(k, 0) + 1
+                    a = op[0]
+                    cls = ("none" if a == "N" else "dash" if a == "-" else "neg" if a < 0 else "zero" if a == 0
+                           else ">=1e6" if a >= 1000000 else "pos")
+                    d["args"][cls] = d["args"].get(cls, 0) + 1
     return d
 
 
